@@ -8,7 +8,7 @@ use crate::raft::store::{ClientRequest, ClientResponse};
 use crate::transfer::model::{TransferImportParam, TransferImportRequest, TransferImportResponse};
 use crate::transfer::reader::TransferImportManager;
 use crate::{
-    config::core::{ConfigActor, ConfigAsyncCmd, ConfigCmd},
+    config::core::{ConfigActor, ConfigAsyncCmd, ConfigCmd, ConfigKey},
     grpc::PayloadUtils,
     raft::{network::factory::RaftClusterRequestSender, NacosRaft},
 };
@@ -80,7 +80,20 @@ impl ConfigRoute {
         anyhow::anyhow!("unknown the raft leader addr!")
     }
 
+    /// The log entry, the snapshot and the backup store a key as `build_key()` and read it back with
+    /// `ConfigKey::from(&str)`: a key whose parts contain the separator would come back as a
+    /// different key (of another group or tenant).
+    fn check_key(key: &ConfigKey) -> anyhow::Result<()> {
+        if ConfigKey::from(key.build_key().as_str()) != *key {
+            return Err(anyhow::anyhow!(
+                "invalid config key, dataId, group and tenant can't contain the char \\x02"
+            ));
+        }
+        Ok(())
+    }
+
     pub async fn set_config(&self, req: SetConfigReq) -> anyhow::Result<()> {
+        Self::check_key(&req.config_key)?;
         match self.raft_addr_route.get_route_addr().await? {
             RouteAddr::Local => {
                 let cmd = ConfigAsyncCmd::Add {
@@ -113,6 +126,7 @@ impl ConfigRoute {
     }
 
     pub async fn del_config(&self, req: DelConfigReq) -> anyhow::Result<()> {
+        Self::check_key(&req.config_key)?;
         match self.raft_addr_route.get_route_addr().await? {
             RouteAddr::Local => {
                 let cmd = ConfigAsyncCmd::Delete(req.config_key);
